@@ -431,6 +431,52 @@ def exhaustive(nobj, maxmult, with_unrecorded=False, with_same=False, limit=None
         yield (f"exh{nobj}-{mi}-{oi}" + ("u" if with_unrecorded else "") + ("s" if with_same else ""), e.ops)
 
 
+def exhaustive_elide(nobj=2, maxmult=2):
+    """every adoption multigraph on `nobj` objects (multiplicity ≤ maxmult); the program drops its own
+    handles to every object but the first, then empties one owner's value with `take` (no `unadopt`)
+    taking every stored handle out, drops what it took out in both orders, and finally drops the
+    rest: the safe part of C13 (the removed handles are dropped) in all small shapes"""
+    pairs = [(a, b) for a in range(nobj) for b in range(nobj)]
+    for mi, m in enumerate(itertools.product(range(maxmult + 1), repeat=len(pairs))):
+        if sum(m) == 0:
+            continue
+        for owner in range(nobj):
+            nheld = sum(c for (a, b), c in zip(pairs, m) if a == owner)
+            if nheld == 0:
+                continue
+            for keep in range(nobj):
+                for rev in (False, True):
+                    e = Est()
+                    for _ in range(nobj):
+                        e.new()
+                    for (a, b), c in zip(pairs, m):
+                        for _ in range(c):
+                            e.edge(a, b, True)
+                    # drop the program's handles except to `keep` and to the owner (needed to reach it)
+                    for o in range(nobj - 1, -1, -1):
+                        if o != keep and o != owner:
+                            i = e.find_root(o)
+                            if i is not None:
+                                e.drop(i)
+                    io = e.find_root(owner)
+                    if io is None:
+                        continue
+                    base = len(e.roots)
+                    for _ in range(nheld):
+                        e.take(io, 0)
+                    taken = list(range(base, len(e.roots)))
+                    for idx in (reversed(taken) if rev else taken):
+                        pass
+                    # drop the taken handles (highest index first so indices stay valid, or lowest first)
+                    for _ in range(len(taken)):
+                        e.drop(len(e.roots) - 1 if rev else base)
+                    e.raw(f"counts 0")
+                    e.clone(0)
+                    e.drop(len(e.roots) - 1)
+                    drop_all(random.Random(mi), e, 1.0)
+                    yield (f"exh{nobj}e-{mi}-{owner}-{keep}-{int(rev)}", e.ops)
+
+
 def write_cases(path, cases):
     with open(path, "w") as f:
         for name, ops in cases:
